@@ -87,16 +87,18 @@ def program(draw):
         q = {"base": draw(st.integers(0, 3)) if kind[0] == "c" else "index",
              "remote": draw(st.integers(0, 3)) if kind[1] == "c" else ("index" if kind[1] == "i" else "worktree"),
              "cwd": draw(st.sampled_from(DIRS)),
-             "paths": draw(st.sampled_from([None, None, ["."], ["sub"], ["sub"], ["other"], ["deep"], ["a.ipynb"], ["c.ipynb"], ["sub/c.ipynb", "b.ipynb"]]))}
+             "paths": draw(st.sampled_from([None, None, ["."], ["sub"], ["sub"], ["other"], ["deep"], ["a.ipynb"], ["c.ipynb"], ["sub/c.ipynb", "b.ipynb"],
+                                           ["a.ipynb", "b.ipynb", "c.ipynb"], ["sub", "other", "a.ipynb"]]))}
         # the same comparison through the command line (`nbdiff <ref> [<ref>] [<path>...]`): brings the ref-vs-path
         # disambiguation of the arguments under the same oracle (the index cannot be named on the command line)
         q["cli"] = kind in ("cc", "cw") and draw(st.sampled_from([True, False, False]))
         # `nbdiff <path>` = HEAD against the working tree below <path>
-        q["cli_omit_head"] = bool(q["cli"] and kind == "cw" and q["base"] == 0 and q["paths"] and len(q["paths"]) == 1 and draw(st.booleans()))
+        q["cli_omit_head"] = bool(q["cli"] and kind == "cw" and q["base"] == 0 and q["paths"] and len(q["paths"]) != 2 and draw(st.booleans()))     # (exactly two paths = a plain two-file comparison)
         queries.append(q)
     # a clean filter for notebooks (nbstripout-style set-up; these filters leave the content as it is, so git's answers do not change):
     # plain, with git's %f placeholder, or a tool that has gone missing (not `required`: git then uses the content unfiltered)
-    flt = draw(st.sampled_from([None, None, None, None, "cat", "cat", "cat %f", "vp-no-such-filter-tool"]))
+    flt = draw(st.sampled_from([None, None, None, None, "cat", "cat", "cat %f", "vp-no-such-filter-tool",
+                                "sh -c 'echo DeprecationWarning: something >&2; cat'"]))        # a filter that also warns on stderr
     return {"ops": ops, "queries": queries, "filter": flt}
 
 
